@@ -356,10 +356,13 @@ func (runInfo *runInfoStruct) invokeMemberExpr(expr *ast.MemberExpr) {
 		return
 	}
 
-	value := runInfo.rv.MethodByName(expr.Name)
-	if value.IsValid() {
-		runInfo.rv = value
-		return
+	if !(runInfo.rv.Kind() == reflect.Interface && runInfo.rv.IsNil()) {
+		// (a nil value of an interface type with methods has no method values: reflect panics on it)
+		value := runInfo.rv.MethodByName(expr.Name)
+		if value.IsValid() {
+			runInfo.rv = value
+			return
+		}
 	}
 
 	if runInfo.rv.Kind() == reflect.Ptr {
